@@ -210,7 +210,9 @@ def _check_diagrams_once(case, ctx, user_arrays, pristine, pass_no):
         else:
             ctx.require(leg is None, "legend_unwanted", "legend drawn although legend=False")
         diag_lines = [l for l in lines if l.get_linestyle() == "--" and l.get_label() != r"$\infty$"]
-        is_xy = [l for l in lines if len(l.get_xdata()) >= 2 and np.allclose(l.get_xdata(), l.get_ydata()) and l.get_xdata()[0] != l.get_xdata()[-1]]
+        # the x=y reference line is drawn from identical x and y data; the (horizontal) infinity line is never it, however small the extent
+        is_xy = [l for l in lines if l.get_label() != r"$\infty$" and len(l.get_xdata()) >= 2 and np.array_equal(np.asarray(l.get_xdata()), np.asarray(l.get_ydata()))
+                 and l.get_xdata()[0] != l.get_xdata()[-1]]
         if o["diagonal"] and not o["lifetime"]:
             ok = any(np.allclose(l.get_xdata(), l.get_ydata()) for l in diag_lines)
             ctx.require(ok, "diagonal_missing", "diagonal requested but no x=y line drawn")
